@@ -255,6 +255,7 @@ func setWriteDeadline(ctx context.Context, conn net.Conn) context.CancelFunc {
 		case <-ctx.Done():
 			/* #nosec */
 			conn.SetWriteDeadline(aLongTimeAgo)
+			verifhook.Yield("wdl.armed", "")
 			/* #nosec */
 			conn.SetWriteDeadline(time.Time{})
 		case <-cancelCtx.Done():
